@@ -163,6 +163,16 @@ install/edit/view/restricted; all style, permission and code-page bits. -/
 theorem C12_os2_roundtrip (o : Os2) (d : Os2Dom o) : decodeOs2 (encodeOs2 o) = .ok o :=
   os2_roundtrip o d
 
+/-- fsType over its whole flag space: every combination of usage permission (install / edit / view /
+restricted) × no-subsetting × bitmap-only is packed into distinct bits of a 16-bit word and read
+back unchanged (the part of `C12_os2_roundtrip` that concerns the permission bits, on its own). -/
+theorem C12_os2_fstype_roundtrip (perm : Int) (hp : 0 ≤ perm ∧ perm ≤ 3) (nosub bitmap : Bool) :
+    let pb := (if perm = 3 then 2 else if perm = 2 then 4 else if perm = 1 then 8 else 0) +
+      (if nosub then 0x0100 else 0) + (if bitmap then 0x0200 else 0)
+    pb < 65536 ∧ (if bit pb 3 then (1 : Int) else if bit pb 2 then 2 else if bit pb 1 then 3 else 0) = perm ∧
+      bit pb 8 = nosub ∧ bit pb 9 = bitmap :=
+  perm_bits perm hp nosub bitmap
+
 /-- a plain regular font's OS/2 info, used for the witnesses below -/
 def os2Sample : Os2 :=
   ⟨400, 5, false, false, true, false, 32, 126, 800, -200, 900, 250, 90, 700, 500, 520,
